@@ -23,6 +23,9 @@ EXPLANATION = 'bounded-exhaustive program families on the real tifa_analysis; in
 # (snippet, belongs to the introductory subset?)
 SNIP = [
     ("x = 1", 1), ("x: int = 1", 1),
+    # calls with the wrong number of arguments (too many, too few, none expected)
+    ("def area(w, h):\n    return w * h\nprint(area(2, 3, 4))", 1), ("def banner():\n    print('-')\nbanner(20)", 1),
+    ("def area(w, h):\n    return w * h\nprint(area(2))", 1), ("def opt(a, b=2):\n    return a + b\nprint(opt(1, 2, 3), opt())", 1),
     # a comprehension whose loop variable has the name of an existing variable of another type (issues located at the
     # comprehension itself)
     ("x = 'abc'\nys = [x for x in [1, 2]]\nprint(ys, x)", 1), ("i = 'k'\nzs = {i: i for i in range(3)}\nprint(zs, i)", 0), ("a, *b = [1, 2, 3]", 0), ("x = [i for i in range(3)]", 1),
@@ -157,6 +160,27 @@ def analyse(ctx, code, must_complete, what):
             ctx.fail({'symptom': 'analysis with explicit code yields different issues'}, program=code)
     except BaseException as e:   # noqa
         ctx.fail({'symptom': 'tifa_analysis(code) raised', 'exception': type(e).__name__}, program=code)
+    # the same text below two blank lines is another text: same issues, two lines further down -- and the original
+    # text analysed once more afterwards still has its own lines (both on the report that analysed the first)
+    try:
+        import re as _re
+        if _re.search(r'^\s*\w+(\.\w+)+\s*=[^=]', code, _re.M):
+            # a program that assigns into an attribute (of a module, say) changes what the report's analyser knows about
+            # that object for every *other* text analysed afterwards; the statement speaks of the same code only
+            raise StopIteration
+        t2c = tifa_analysis("\n\n" + code)
+        down = sorted([(lab, name, None if line is None else line + 2) for lab, name, line in first], key=repr)
+        if _issues(t2c) != down:
+            ctx.fail({'symptom': 'analysis of the same text below blank lines yields different issues or lines'},
+                     program=code, alone=first, below_two_blank_lines=_issues(t2c))
+        t2d = tifa_analysis(code)
+        if _issues(t2d) != first:
+            ctx.fail({'symptom': 'analysis after the shifted text was analysed yields different issues or lines'},
+                     program=code, first=first, again=_issues(t2d))
+    except StopIteration:
+        ctx.abstain()
+    except BaseException as e:   # noqa
+        ctx.fail({'symptom': 'tifa_analysis(blank lines + code) raised', 'exception': type(e).__name__}, program=code)
     for lab, name, line in first:
         if line is not None and not (1 <= line <= nlines):
             ctx.fail({'symptom': 'issue line outside the analysed source', 'label': lab}, program=code, line=line)
